@@ -428,7 +428,7 @@ def make_specs():
     out = [ObserverInit(W), Schedule(W), Unschedule(W), UnscheduleAll(W), ClearEmitters(W), AddHandler(W), RemoveHandler(W), Start(W)] + [WatchSpec(WW, n) for n in ("__init__", "key", "__eq__", "__ne__", "__hash__")]
     # "after any sequence of ... start and stop calls": stop() is BaseThread.stop -> on_thread_stop -> unschedule_all, on every call
     from specs import c05, c06
-    for sp in (c06.ThreadStop(), c05.OnThreadStop(W)):
+    for sp in (c06.ThreadStop(), c06.DispatcherStop(), c05.OnThreadStop(W)):
         sp.prop = PROP
         out.append(sp)
     return out
